@@ -90,3 +90,114 @@ class _rdflib_encode_graph:
                 "sizes-fixed": And(E.names.lookup.max_size == O.names.lookup.max_size,
                                    E.prefixes.lookup.max_size == O.prefixes.lookup.max_size,
                                    E.datatypes.lookup.max_size == O.datatypes.lookup.max_size)}
+
+
+# =========================================================================== rdflib stream_frames (TRIPLES physical type)
+from pyvc.contract import ABSITER, MSG, REGISTRY, STR, TUP, LoopSpec, Sort  # noqa: E402
+from pyvc.values import BuiltinMethod, Ref, Unsupported  # noqa: E402
+
+from .serialize_generic import (ENC_MOD, MAY_REJECT, STMT_MOD, TRIPLE, IRI_TERM, _after_stmt, _frames_post, _frames_pre,  # noqa: E402
+                                _silent_loop, _stmt_loop)
+from .streams import SS  # noqa: E402
+
+
+# a term as rdflib can hold one: anything but a quoted triple
+RTERM = Sort("adt", "gterm", lambda t: Not(GTerm.is_QTriple(t)))
+RTRIPLE = TUP(RTERM, RTERM, RTERM)
+
+
+class RGraphModel:
+    """A-RDFLIB: an rdflib Graph or Dataset as far as the serializer looks at it: iterating a Graph delivers triples of
+    terms, `Dataset.graphs()` delivers graphs, `.namespaces()` delivers (prefix, URIRef) pairs, `.identifier` is a term;
+    all of unknown length / content.  isinstance(x, Graph) holds for both, isinstance(x, Dataset) for datasets only."""
+    name = "A-RDFLIB rdflib Graph / Dataset as abstract containers"
+    kind = "rgraph"
+
+    def make(self, eng: Any, st: Any, sort: Sort, name: str):
+        st, ident, inv = eng.make(st, ADTS("gterm"), name + ".identifier")
+        st, r = eng.alloc(st, "rgraph", "Graph", dataset=bool(sort.arg), identifier=ident)
+        return st, r, inv
+
+    def isinstance(self, eng: Any, st: Any, v: Ref, nm: str) -> Any:
+        last = nm.split(".")[-1]
+        if last == "Graph":
+            return True
+        if last == "Dataset":
+            return st.obj(v).get("dataset")
+        return False
+
+    def truth(self, eng: Any, st: Any, r: Ref) -> Any:
+        raise Unsupported("truthiness of an rdflib graph (len())")
+
+    def getattr(self, eng: Any, st: Any, r: Ref, attr: str, node: Any, ctx: Any):
+        if attr == "identifier":
+            yield st, st.obj(r).get("identifier")
+        else:
+            yield st, BuiltinMethod(r, attr)
+
+    def call_method(self, eng: Any, st: Any, r: Ref, name: str, args: list, kwargs: dict, node: Any, ctx: Any):
+        if name == "namespaces" and not args:
+            st, it, inv = eng.make(st, ABSITER(TUP(STR, IRI_TERM)), "namespaces")
+        elif name == "graphs" and not args and st.obj(r).get("dataset"):
+            st, it, inv = eng.make(st, ABSITER(Sort("rgraph", False)), "graphs")
+        elif name == "__iter__":
+            st, it, inv = eng.make(st, ABSITER(RTRIPLE), "triples")
+        else:
+            raise Unsupported(f"rdflib Graph.{name}", node)
+        yield st.assume(*inv), it
+
+    def iter(self, eng: Any, st: Any, r: Ref, node: Any, ctx: Any):
+        yield from self.call_method(eng, st, r, "__iter__", [], {}, node, ctx)
+
+
+REGISTRY.models["rgraph"] = RGraphModel()
+
+
+@contract(f"{RSER}:namespace_declarations", serves=["C14", "C02"])
+class _r_ns_decls:
+    """every binding of the graph's namespace manager goes through Stream.namespace_declaration, in order, one at a time"""
+    params = {"store": Sort("rgraph", False), "stream": OBJ(f"{SS}:TripleStream@r")}
+    variants = [{"store": Sort("rgraph", False)}, {"store": Sort("rgraph", True)}]
+    modifies = ["stream.encoder.names", "stream.encoder.prefixes", "stream.flow.data", "stream.g_ns"]
+    loops = {0: LoopSpec(invariant=lambda e: {"tables-well-formed": wf_te(e.stream.encoder)},
+                         modifies=["stream.encoder.names", "stream.encoder.prefixes", "stream.g_ns"],
+                         extends=["stream.flow.data"])}
+
+    def requires(e): return wf_te(e.stream.encoder)
+
+    def lists(e):
+        return [dict(label="declared", when=True, set={"stream.flow.data": list(e.old.stream.flow.data.items) + [...]})]
+
+    def ensures(e): return {"wf": wf_te(e.stream.encoder)}
+
+
+def _r_variants() -> list:
+    out = []
+    for sfx in ("@r", "@rmanual", "@rgraphs"):
+        for data in (Sort("rgraph", False), Sort("rgraph", True), ABSITER(RTRIPLE)):
+            out.append({"stream": OBJ(f"{SS}:TripleStream{sfx}"), "data": data})
+    return out
+
+
+@contract(f"{RSER}:triples_stream_frames", serves=["C06", "C11", "C03", "C14", "C07", "C02"])
+class _r_triples_frames:
+    """the rdflib twin of the generic triples_stream_frames, under the same clauses: final flush leaves nothing buffered,
+    every frame taken out of the flow is yielded, fewer than frame_size rows pending after every statement, declarations
+    only on request - for a Graph, for every graph of a Dataset, and for a generator of triples"""
+    params = {"stream": OBJ(f"{SS}:TripleStream@r"), "data": Sort("rgraph", False)}
+    variants = _r_variants()
+    yields = MSG("RdfStreamFrame")
+    shards = 6
+    modifies = STMT_MOD
+    # loop 0: the graphs (one for a Graph / generator, arbitrarily many for a Dataset); loop 1: the statements of a graph
+    loops = {0: LoopSpec(invariant=_stmt_loop, modifies=STMT_MOD[:5]),
+             1: LoopSpec(invariant=_stmt_loop, after_each=_after_stmt, modifies=STMT_MOD[:5], silent=_silent_loop)}
+
+    def requires(e): return _frames_pre(e)
+    def raises(e): return MAY_REJECT
+    def on_raise(e): return {"tables-still-well-formed": wf_te(e.stream.encoder)}
+
+    def ensures(e):
+        out = _frames_post(e)
+        out.pop("at-most-one-frame-per-graph-or-dataset", None)     # a Dataset holds any number of graphs
+        return out
